@@ -205,19 +205,9 @@ func (c *Check) backoffArithmetic(rule string) {
 		chk  func(v *Expr, st *State) bool
 	}
 	isMin60 := func(v *Expr, st *State) bool { cv, ok := v.IsConst(); return ok && cv == 60*sec }
+	// exactly twice the old delay (a linear form 2*delay)
 	isDouble := func(v *Expr, st *State) bool {
-		if v.Op != "call" || v.S != "min" || len(v.Args) != 2 {
-			return false
-		}
-		a, b := v.Args[0], v.Args[1]
-		if cv, ok := a.IsConst(); ok && cv == 300*sec {
-			a, b = b, a
-		}
-		cv, ok := b.IsConst()
-		if !ok || cv != 300*sec {
-			return false
-		}
-		l := st.linOf(a)
+		l := st.linOf(v)
 		if len(l.T) != 1 || l.C != 0 {
 			return false
 		}
@@ -228,10 +218,12 @@ func (c *Check) backoffArithmetic(rule string) {
 		}
 		return true
 	}
+	isMax300 := func(v *Expr, st *State) bool { cv, ok := st.rangeOf(v).IsConst(); return ok && cv == 300*sec }
 	for _, w := range []want{
 		{"amnesia elapsed => 60 s", hooks(rangeHook(isLastNN, isConst(1)), rangeHook(isSince, isRange(300*sec, posInf))), isMin60},
 		{"no earlier error, delay 0 => 60 s", hooks(rangeHook(isLastNN, isConst(0)), rangeHook(isDelay, isRange(negInf, 0))), isMin60},
-		{"recent error, delay > 0 => min(2*delay, 300 s)", hooks(rangeHook(isLastNN, isConst(1)), rangeHook(isSince, isRange(0, 300*sec-1)), rangeHook(isDelay, isRange(1, posInf))), isDouble},
+		{"recent error, 0 < delay <= 150 s => 2*delay", hooks(rangeHook(isLastNN, isConst(1)), rangeHook(isSince, isRange(0, 300*sec-1)), rangeHook(isDelay, isRange(1, 150*sec))), isDouble},
+		{"recent error, 150 s <= delay <= 300 s => 300 s", hooks(rangeHook(isLastNN, isConst(1)), rangeHook(isSince, isRange(0, 300*sec-1)), rangeHook(isDelay, isRange(150*sec, 300*sec))), isMax300},
 	} {
 		a := NewAnalysis(p, fn)
 		a.AtomHook = w.hook
